@@ -14,7 +14,7 @@ from checks import table_common as T
 TQ_CFG = """SPECIFICATION Spec
 CONSTANTS
   Keys = {{1,2,3,4,5,6,9}}
-  Lits = {{0, 1, 2}}
+  Lits = {{0, 1, 2, 3}}
   Small <- SmallDefault
   MaxSteps = {steps}
 VIEW view
@@ -56,11 +56,12 @@ def histories(kind):
                                                             {"op": "optimize_indices", "h": "main"}]))
                 # the index update merges stored pages with new rows: new values above / below / between the old ones,
                 # with NULLs on both sides, in two rounds
-                out.append((f"optimize-grow-after-{ty}", pre + [{"op": "append", "h": "main", "rows": [[7, 3], [8, -1], [9, 4]]},
+                # (new rows without NULL and above every old value; then a round with NULLs and values on both sides)
+                out.append((f"optimize-grow-after-{ty}", pre + [{"op": "append", "h": "main", "rows": [[7, 3], [8, 4]]},
                                                                  {"op": "optimize_indices", "h": "main"}]))
                 out.append((f"optimize-twice-after-{ty}", pre + [{"op": "append", "h": "main", "rows": [[7, 4], [8, -1]]},
                                                                   {"op": "optimize_indices", "h": "main"},
-                                                                  {"op": "append", "h": "main", "rows": [[9, 0], [10, 3], [11, -1]]},
+                                                                  {"op": "append", "h": "main", "rows": [[9, 0], [10, 5]]},
                                                                   {"op": "optimize_indices", "h": "main"}]))
     return out
 
